@@ -115,7 +115,7 @@ impl<'a, 'b> B<'a, 'b> {
         for _ in 0..n {
             let cid = self.fresh();
             let name = format!("m{cid}");
-            let kind = if self.space.exotic { self.c.weighted(&[6, 2, 2, 1, 1, 1, 1]) } else { 0 };
+            let kind = if self.space.exotic { self.c.weighted(&[6, 2, 2, 1, 1, 1, 1, 1, 1]) } else { 0 };
             match kind {
                 1 => {
                     // #[path] on a file-level declaration: relative to the directory of this file
@@ -153,6 +153,34 @@ impl<'a, 'b> B<'a, 'b> {
                     self.child_file(&d.clone(), &name, depth - 1);
                     self.next_decl = "cfg_if".into();
                     self.child_file(&d.clone(), &other, depth - 1);
+                }
+                7 => {
+                    // cfg_match!: every arm is reached
+                    let other = format!("m{}", self.fresh());
+                    content.push_str(&format!(
+                        "std::cfg_match! {{\n    test => {{\n        mod {name};\n    }}\n    _ => {{\n        mod {other};\n    }}\n}}\n"
+                    ));
+                    self.label("cfg_match");
+                    self.next_decl = "cfg_if".into();
+                    self.child_file(&d.clone(), &name, depth - 1);
+                    self.next_decl = "cfg_if".into();
+                    self.child_file(&d.clone(), &other, depth - 1);
+                }
+                8 => {
+                    // the documented fallback: declared in a non-mod-rs file `x/name.rs`, the
+                    // nested location `x/name/c.rs` does not exist, `x/c.rs` does
+                    let own_dir = dir_of(&path);
+                    if own_dir != d {
+                        content.push_str(&format!("mod {name};\n"));
+                        let p = join(&own_dir, &format!("{name}.rs"));
+                        self.label("fallback-to-own-directory");
+                        self.pending_decl = "fallback".into();
+                        self.module(p, join(&own_dir, &name), 0, Role::Module, true);
+                    } else {
+                        content.push_str(&format!("mod {name};\n"));
+                        self.next_decl = "plain".into();
+                        self.child_file(&d.clone(), &name, depth - 1);
+                    }
                 }
                 6 => {
                     // an inline module inside a cfg_if! branch that declares an out-of-line module
